@@ -4,6 +4,10 @@ import vlib
 from props import clihist_common as C
 from props._client_family import *  # noqa
 
+TRANSLATORS = ["http_gate", "sniff"]
+MODELS = ["clihist", "httpbatch"]
+BINS = {"release": ["clihist", "httpbatch"]}
+
 RULE = ("batches of 1..4 (quick) / 1..5 (thorough) entries answered by every permutation (sampled in quick), with a missing / "
         "repeated / foreign id, with two batches and single calls in flight and replies crossing; random histories on top.  Oracle on "
         "the implementation alone: a completed batch has exactly n entries, entry j's payload marker names id lo+j, counts match "
